@@ -28,7 +28,7 @@ class C07(object):
     exhaustive = {}
 
     def gen(self, rng, tier):
-        n_cases = 300 if tier == 'quick' else 6000
+        n_cases = 300 if tier == 'quick' else 18000
         for _ in range(n_cases):
             kind = rng.choice(['ops', 'ops', 'chain', 'struct', 'struct', 'measure'])
             if kind == 'ops':
